@@ -24,6 +24,8 @@ structure ATerm where
   visible : Option Bool := none         -- cursor visibility
   shape : Option (Nat × Nat) := none    -- cursor style / colour last requested with the cursor shown
   writes : List (Int × Int) := []       -- cells that received payload, most recent first (C13)
+  covered : List (Int × Int) := []      -- every cell a payload occupied: the addressed cell and, for a two-column glyph,
+                                        -- the cell to its right; most recent first (C13, locked cells never painted)
   chaos : Bool := false                 -- a print happened with unknown cursor/pen or outside the grid
 
 namespace ATerm
@@ -43,7 +45,8 @@ def putAt (t : ATerm) (x y : Int) (bytes : List Nat) (width : Int) (st : Style) 
   let t3 := if width > 1 ∧ t.grid (x + 2) y = .cont then t2.set (x + 2) y .garbage else t2
   let t4 := t3.set x y (.shown bytes (decide (width > 1)) st)
   let t5 := if width > 1 then t4.set (x + 1) y .cont else t4
-  { t5 with cur := some (x + width, y), writes := (x, y) :: t.writes }
+  { t5 with cur := some (x + width, y), writes := (x, y) :: t.writes,
+            covered := if width > 1 then (x + 1, y) :: (x, y) :: t.covered else (x, y) :: t.covered }
 
 def clampX (t : ATerm) (x : Int) : Int := if x < 0 then 0 else if x ≥ t.w then t.w - 1 else x
 def clampY (t : ATerm) (y : Int) : Int := if y < 0 then 0 else if y ≥ t.h then t.h - 1 else y
